@@ -149,19 +149,28 @@ class ValidateRuleExclusions(Contract):
     id = "C19.SigmaValidator.validate_rule"
     target = "sigma.validation:SigmaValidator.validate_rule"
     props = ("C19",)
-    cases = ((), ("A",), ("B",), ("A", "B"))
+    cases = tuple((ex, has_id) for ex in ((), ("A",), ("B",), ("A", "B")) for has_id in (True, False))
+    assumed = ["the exclusion table is a defaultdict(set) keyed by rule id; rules without id are looked up under None (as written by exclusions with a null key)"]
 
     def args(self, I, case):
+        from pyvc.builtins_ import SDefaultDict
+        ex, has_id = case
         idx = I.E.index
         ran = []
         A = SObj("ValidatorA", {"__class__": "A", "validate": NativeFn("validate", lambda I2, a, k: (ran.append("A"), ["issueA"])[1])})
         B = SObj("ValidatorB", {"__class__": "B", "validate": NativeFn("validate", lambda I2, a, k: (ran.append("B"), ["issueB1", "issueB2"])[1])})
-        rid = I.fresh("rule_id", "opaque", "UUID")
+        rid = I.fresh("rule_id", "opaque", "UUID") if has_id else None
         rule = SObj(idx.lookup("sigma.rule.rule:SigmaRule"), {"id": rid}, lazy=True)
-        excl = SObj("Exclusions", {})
-        I.E.external_getitem = {"Exclusions": lambda I2, a, k: set(case) if a[1] is rid else (_ for _ in ()).throw(OutsideSubset("exclusions looked up with another key"))}
+        excl = SDefaultDict()
+        excl.factory = NativeFn("set", lambda I2, a, k: set())
+        other = I.fresh("other_rule_id", "opaque", "UUID")
+        if rid is not None:
+            I.ctx.assume(rid.t != other.t)
+        excl[other] = {"A", "B"}          # exclusions of another rule never apply
+        if ex:
+            excl[rid] = set(ex)
         me = SObj(idx.lookup("sigma.validation:SigmaValidator"), {"validators": [A, B], "exclusions": excl}, lazy=True)
-        return {"self": me, "args": [rule], "ran": ran, "case": case}
+        return {"self": me, "args": [rule], "ran": ran, "case": ex}
 
     def post(self, I, inp, r):
         want_ran = [x for x in ("A", "B") if x not in inp["case"]]
@@ -287,3 +296,37 @@ class SpecificLogsourceValidatorState(Contract):
 
     def frame_ok(self, I, inp, obj, name):
         return obj is inp["self"] and name in ("logsource", "eventid_mappings", "disallowed_logsource_event_ids", "rule")
+
+
+@register
+class DanglingConditionValidate(Contract):
+    """DanglingConditionValidator.validate: the unknown references of EVERY condition of the rule are reported (a rule may have a list of
+    conditions), each once"""
+    id = "C19.DanglingConditionValidator.validate"
+    target = f"{VC}:DanglingConditionValidator.validate"
+    props = ("C19",)
+    cases = ((), (("x",),), (("x",), ()), ((), ("y",)), (("x", "y"), ("y", "z")), (("x",), (), ("z",)))
+    assumed = ["condition_unknown_referenced_ids by its own contract (summarised: the unknown names of each condition are given)"]
+
+    def setup(self, E):
+        DanglingDetectionValidate.setup(self, E)
+        E.summaries[f"{VC}:DanglingConditionValidator.condition_unknown_referenced_ids"] = lambda I, so, a, k: set(a[0].ghost["unknown"])
+
+    def args(self, I, case):
+        idx = I.E.index
+        conds = []
+        for unk in case:
+            tree = SObj("Tree", {}, ghost={"unknown": unk})
+            conds.append(SObj("SigmaCondition", {"parse": NativeFn("parse", lambda I2, a, k, tree=tree: tree if (a and a[0] is False) else (_ for _ in ()).throw(OutsideSubset("validator must call parse(False)")))}))
+        det = SObj("Detections", {"parsed_condition": conds})
+        rule = SObj(idx.lookup("sigma.rule.rule:SigmaRule"), {"detection": det}, lazy=True)
+        return {"self": SObj(idx.lookup(f"{VC}:DanglingConditionValidator"), {}, lazy=True), "args": [rule], "rule": rule, "case": case}
+
+    def post(self, I, inp, r):
+        want = sorted(set(n for unk in inp["case"] for n in unk))
+        got = sorted(x.ghost["args"][1] for x in r) if isinstance(r, list) else None
+        I.ctx.require(got == want, f"one issue per unknown reference of any condition: {want} (got {got})")
+        I.ctx.require(isinstance(r, list) and all(x.ghost["args"][0] == [inp["rule"]] for x in r), "issues name this rule")
+
+    def frame_ok(self, I, inp, obj, name):
+        return False
